@@ -390,7 +390,7 @@ func HarnessSubscriptionCancel() {
 func HarnessManySubscriptions() {
 	S := verif.Bound("S", 3)
 	h := newH()
-	for i := 0; i < S; i++ {
+	for i := 0; i <= S; i++ {
 		h.release[i] = make(chan struct{})
 	}
 	srv := jsonrpc.NewServer()
@@ -399,15 +399,14 @@ func HarnessManySubscriptions() {
 	var c CS
 	closer, err := jsonrpc.NewMergeClient(context.Background(), url, "H", []interface{}{&c}, nil)
 	verif.Assert(err == nil, "client-created")
-	cancels := make([]context.CancelFunc, S)
+	cancels := make([]context.CancelFunc, S+1)
 	var mu sync.Mutex
-	closed := make([]int, S)
-	for i := 0; i < S; i++ {
+	closed := make([]int, S+1)
+	subscribe := func(i int) {
 		ctx, cancel := context.WithCancel(context.Background())
 		cancels[i] = cancel
 		ch, serr := c.Stream(ctx, i)
 		verif.Assert(serr == nil && ch != nil, "subscription-established")
-		i := i
 		go func() {
 			for range ch {
 			}
@@ -415,6 +414,9 @@ func HarnessManySubscriptions() {
 			closed[i]++
 			mu.Unlock()
 		}()
+	}
+	for i := 0; i < S; i++ {
+		subscribe(i)
 	}
 	verif.Quiesce()
 	live := make([]int, 0, S)
@@ -441,6 +443,13 @@ func HarnessManySubscriptions() {
 			verif.Assert(closed[o] == 0, "other-subscription-channel-stays-open")
 		}
 		mu.Unlock()
+		if step == 0 && len(live) > 0 && verif.Bool("newcomer_after_first_end") {
+			// a new subscription is opened after one has ended while others are still open;
+			// it then takes part in the remaining steps like any other
+			subscribe(S)
+			verif.Quiesce()
+			live = append(live, S)
+		}
 	}
 	closer()
 	stop()
